@@ -27,6 +27,7 @@ var (
 	bigPtr      = reflect.TypeOf((*big.Int)(nil))
 	ethAddrType = reflect.TypeOf(eth.Address{})
 	classesType = reflect.TypeOf(map[felt.Felt]core.ClassDefinition{})
+	txIfaceType = reflect.TypeOf((*core.Transaction)(nil)).Elem()
 )
 
 // isFelt: felt.Felt and the named types with the same representation
@@ -167,10 +168,18 @@ func (w *walker) walk(v reflect.Value, path, norm string) {
 			if !f.IsZero() {
 				muts = append(muts, "zero")
 			}
+			// nil-ing a pointer: only where juno reads the field synchronously (transaction hashing,
+			// header checks); a nil inside a commitment worker goroutine would kill the whole process
+			if w.txKind != "" && !strings.HasSuffix(norm, ".TransactionHash") && !strings.HasSuffix(norm, ".Version") {
+				muts = append(muts, "setnil")
+			}
 			w.visit(path, norm, "felt", muts, siteCtx{IsZero: f.IsZero()}, func(m string) {
-				if m == "zero" {
+				switch m {
+				case "zero":
 					f.SetUint64(0)
-				} else {
+				case "setnil":
+					v.Set(reflect.Zero(t))
+				default:
 					feltInc(f)
 				}
 			})
@@ -276,7 +285,14 @@ func (w *walker) walkSlice(v reflect.Value, path, norm string) {
 	if w.done {
 		return
 	}
-	for _, i := range positions(n) {
+	idxs := positions(n)
+	if t.Elem() == txIfaceType {
+		idxs = idxs[:0]
+		for i := 0; i < n; i++ { // every transaction: each kind / version is a struct of its own
+			idxs = append(idxs, i)
+		}
+	}
+	for _, i := range idxs {
 		w.walk(v.Index(i), fmt.Sprintf("%s[%d]", path, i), norm+"[]")
 	}
 }
